@@ -10,8 +10,8 @@ _fam = {}
 _pending = None
 
 def begin():
-    global _fam, _pending
-    _fam = {}; _pending = None
+    global _fam, _pending, _last_loop
+    _fam = {}; _pending = None; _last_loop = None
 
 def comment(text):
     global _pending
@@ -22,8 +22,28 @@ def comment(text):
 def rel(a, b, tol):
     return abs(a - b) <= tol * max(abs(a), abs(b), 1e-300)
 
+_last_loop = None
+
+def judge_poly(ln):
+    """the same outline as a Polygon3D: area and normal are the outer loop's (those of the preceding loop.metrics line),
+    the outer centroid is the mean of the stored vertices"""
+    R = ln.res
+    if R[0] != 'ok': return ('skip', 'not-built')
+    if _last_loop is None or _last_loop['args'] != ln.args: return ('skip', 'leaf')
+    b = _last_loop
+    tol = 1e-3 if FMT.name == 'f32' else 1e-9
+    area = to_float(R[1]); n = tuple(to_float(t) for t in R[2:5]); cen = tuple(to_float(t) for t in R[5:8])
+    if R[1] != b['area_tok']: return ('fail', 'polygon-area', 'Polygon3D::new: area %.17g, outer loop %.17g' % (area, b['area']))
+    if list(R[2:5]) != list(b['normal_toks']):
+        return ('fail', 'polygon-normal', 'Polygon3D::new: normal %s, outer loop %s' % (n, b['n']))
+    sc = max(max(abs(c) for c in b['mean']), 1.0)
+    if any(abs(cen[k] - b['mean'][k]) > tol * 10 * sc for k in range(3)):
+        return ('fail', 'polygon-outer-centroid', 'outer centroid %s vs mean %s' % (cen, b['mean']))
+    return ('ok', '')
+
 def judge(ln):
-    global _pending
+    global _pending, _last_loop
+    if ln.op == 'poly.metrics': return judge_poly(ln)
     if ln.op != 'loop.metrics': return ('skip', 'leaf')
     pend, _pending = _pending, None
     pts, i = rd_pts(ln.args, 0)
@@ -63,6 +83,8 @@ def judge(ln):
         mean = tuple(float(sum(p[k] for p in L.pts) / len(L.pts)) for k in range(3))
         sc = max(max(abs(c) for c in mean), 1.0)
         if any(abs(cen[k] - mean[k]) > tol * 10 * sc for k in range(3)): return ('fail', 'centroid', 'centroid %s vs mean %s' % (cen, mean))
+    _last_loop = dict(args=ln.args, area_tok=L.area_tok, area=area, normal_toks=L.normal_toks, n=n,
+                      mean=tuple(float(sum(p[k] for p in L.pts) / len(L.pts)) for k in range(3)))
     # family invariance
     if pend is not None:
         fid, variant = pend
